@@ -161,6 +161,9 @@ pub fn merged_arrays() {
         b.m.read(None).expect("read b after propagation")
     };
     check_merged(&c, &pulled);
+    for key in ["items♭", "more♭"] {
+        assert!(ids_of(&pulled, key) == ids_of(&d, key), "the merged order changed when the merge was committed and propagated");
+    }
     assert!(c.a.reopen().read(None).expect("read reopened") == pulled, "reopened replica and receiving replica read different documents");
     sym::reach(1);
 }
